@@ -28,7 +28,8 @@
 EXTENDS Naturals, Integers, Sequences, FiniteSets, TLC
 
 CONSTANTS Shapes,     \* init arguments: [sec |-> "raw", via, wcap, woff, rcap, roff, grow] or [sec |-> "file", pre]
-          Datas,      \* byte strings offered to push / write
+          Datas,      \* byte strings offered to write / push on a file stream
+          RawDatas,   \* byte strings offered to push on the unframed queue
           Ks,         \* sizes offered to flush / deliver / read / peek (1000000 = everything)
           OpenArgs,   \* [m, nl, fl, buf, via] offered to open
           SeekArgs,   \* [off, wh] offered to seek
@@ -184,7 +185,7 @@ UShift ==
 
 UNext ==
   /\ UNCHANGED fvars
-  /\ \/ \E d \in Datas : UPush(d)
+  /\ \/ \E d \in RawDatas : UPush(d)
      \/ UDone
      \/ \E n \in {1, 2} : UDiscard(n) \/ UOvertrim(n)
      \/ \E k \in Ks : UFlush(k) \/ UDeliver(k)
